@@ -128,6 +128,9 @@ namespace detail
 		GLM_FUNC_QUALIFIER static vec<L, int, Q> call(vec<L, T, Q> const& v)
 		{
 			vec<L, T, Q> x(v);
+			// GLSL: for negative values the result is the most significant bit set to 0: search the complement
+			if(std::numeric_limits<T>::is_signed)
+				x = x ^ (x >> static_cast<T>(sizeof(T) * 8 - 1));
 			x = compute_findMSB_step_vec<L, T, Q, sizeof(T) * 8 >=  8>::call(x, static_cast<T>( 1));
 			x = compute_findMSB_step_vec<L, T, Q, sizeof(T) * 8 >=  8>::call(x, static_cast<T>( 2));
 			x = compute_findMSB_step_vec<L, T, Q, sizeof(T) * 8 >=  8>::call(x, static_cast<T>( 4));
